@@ -86,17 +86,27 @@ class Batch:
         self.ht_meta.append(meta)
 
     def run(self):
+        """the three comparisons run concurrently (each is sharded and parallel inside coq_mismatches)"""
+        import concurrent.futures
         ctx = self.ctx
-        bad = []
-        for name, fn, eqb, ity, oty, cases, meta in [
+        jobs = [
             ('to', TO_FN, 'node_eqb', f'{G.ENV_TY} * mode * val', 'node', self.to_cases, self.to_meta),
             ('of', OF_FN, 'rval_eqb', f'{G.ENV_TY} * ty * node', 'result val', self.of_cases, self.of_meta),
             ('ht', HT_FN, 'Bool.eqb', f'{G.ENV_TY} * ty * val', 'bool', self.ht_cases, self.ht_meta),
-        ]:
-            idx = ctx.coq_mismatches(name, G.COQ_IMPORTS, fn, eqb, ity, oty, cases, shard=250)
-            for i in idx:
-                bad.append((name, fn, cases[i], meta[i], ''))
+        ] + self.extra_jobs
+        bad = []
+
+        def one(job):
+            name, fn, eqb, ity, oty, cases, meta = job
+            return [(name, fn, cases[i], meta[i], '') for i in
+                    ctx.coq_mismatches(name, G.COQ_IMPORTS, fn, eqb, ity, oty, cases, shard=200)]
+
+        with concurrent.futures.ThreadPoolExecutor(max_workers=len(jobs)) as ex:
+            for res in ex.map(one, jobs):
+                bad.extend(res)
         return bad
+
+    extra_jobs: list = []
 
 
 # ----------------------------------------------------------------------------- malformed stream
@@ -359,13 +369,9 @@ def timestamp_cases(ctx, rng, nrand):
         ctx.case(('parse', s), nontrivial=True, kind='ts:parse:' + ('ok' if ok else 'reject'))
         par_cases.append((chex(s.encode()), cok(cZ(z)) if ok else 'Reject'))
         par_meta.append({'text': s, 'parsed': z if ok else repr(z)})
-    imp = G.COQ_IMPORTS
-    bad = []
-    for i in ctx.coq_mismatches('tsfmt', imp, 'format_timestamp', 'bytes_eqb', 'Z', 'bytes', fmt_cases):
-        bad.append(('format_timestamp', fmt_cases[i], fmt_meta[i]))
-    for i in ctx.coq_mismatches('tspar', imp, 'parse_ts', 'result_eqb Z.eqb', 'bytes', 'result Z', par_cases):
-        bad.append(('parse_ts', par_cases[i], par_meta[i]))
-    return viol, bad
+    jobs = [('format_timestamp', 'format_timestamp', 'bytes_eqb', 'Z', 'bytes', fmt_cases, fmt_meta),
+            ('parse_ts', 'parse_ts', 'result_eqb Z.eqb', 'bytes', 'result Z', par_cases, par_meta)]
+    return viol, jobs
 
 
 def fixed_witnesses(ctx):
@@ -412,15 +418,17 @@ def run(ctx: lib.Ctx) -> None:
     viols += fixed_witnesses(ctx)
     bads = []
 
-    tv, tb = timestamp_cases(ctx, rng, ctx.n(150, 3000))
+    tv, ts_jobs = timestamp_cases(ctx, rng, ctx.n(150, 2000))
     viols += tv
+    tb = []
 
-    nvals = ctx.n(420, 9000)
-    per_batch = 420 if not ctx.thorough else 1500
+    nvals = ctx.n(220, 2500)
+    per_batch = 220 if not ctx.thorough else 1000
     done = 0
     # corpus first
     cor = corpus(ctx)
     batch = Batch(ctx)
+    batch.extra_jobs = ts_jobs
     for c in cor:
         ok, T = lib.call(match_type, c['type'])
         if not ok:
@@ -433,15 +441,17 @@ def run(ctx: lib.Ctx) -> None:
         for _ in range(min(per_batch, nvals - done)):
             depth = rng.choice([1, 2, 2, 3, 3, 4])
             tj, T, n, v = gen_case(ctx, rng, depth, None)
-            viols += check_value(ctx, batch, rng, tj, T, n, v, malformed=rng.choice([1, 2, 3]))
+            viols += check_value(ctx, batch, rng, tj, T, n, v, malformed=rng.choice([1, 2, 2]))
             done += 1
         bads += batch.run()
         batch = Batch(ctx)
+        batch.extra_jobs = []
         if len(viols) > 40:
             break
 
     ctx.extra['correspondence_mismatches'] = len(bads) + len(tb)
-    ctx.extra['_bads'] = [(b[0], b[3]) for b in bads[:8]] + [(b[0], b[2]) for b in tb[:8]]
+    if bads or tb:
+        ctx.extra['first_mismatches'] = [str((b[0], b[3]))[:600] for b in bads[:5]] + [str((b[0], b[2]))[:600] for b in tb[:5]]
     reported = 0
     seen = set()
     for what, rep in viols:
